@@ -15,6 +15,7 @@ One pass suffices because reconciliation and dedup pruning run before the sweep 
 pass; after a pass with failing deletions the next pass finishes the job.
 -/
 import Pithos.Lemmas.PartsGC
+import Pithos.Gen.PartsSql
 
 namespace Pithos.C09
 open Pithos.Parts
@@ -59,12 +60,15 @@ theorem gc_idempotent (cfg : Cfg) (s : St) (h : RefInv s) (hx : s.gcExt = []) :
 
 /-- **gc_converges_from_reachable.** The same for every state reachable by any interleaving of
 the atomic steps (C08's `refinv_run`), once nothing is queued. -/
-theorem gc_converges_from_reachable (cfg : Cfg) (acts : List Act)
+theorem gc_converges_from_reachable (cfg : Cfg) (hq : cfg.sql.Sound) (acts : List Act)
     (hx : (run cfg St.init acts).gcExt = []) (hold : OrphansOld cfg (run cfg St.init acts)) :
     ∀ st ∈ cfg.storeNames, ∀ p,
       (gcRun cfg (run cfg St.init acts)).stores st p ≠ none ↔
         ∃ r ∈ (run cfg St.init acts).rows, r.pid = p ∧ r.store = st :=
-  (gc_converges cfg _ (run_inv cfg refinv_init acts) hx hold).2.1
+  (gc_converges cfg _ (run_inv cfg hq refinv_init acts) hx hold).2.1
+
+/-- T1: the statements of the current tree meet the hypothesis of `gc_converges_from_reachable`. -/
+theorem regenerated_sql_facts_sound : Pithos.Gen.partsSql.Sound := by decide
 
 /-- **gc_converges_after_failed_pass.** If the deletions of an arbitrary set of ids fail in one
 pass ("post-commit part deletion failed; leaving orphan for next GC"), the next fault-free pass
@@ -90,7 +94,7 @@ theorem gc_converges_after_failed_pass (cfg : Cfg) (fail : PartId → Bool) (s :
 /-- **grace_window_respected** (why the age hypothesis is there, and non-vacuity of the model's
 age filter): an orphan younger than the grace window survives the pass; once older it is removed. -/
 theorem grace_window_respected :
-    let cfg : Cfg := ⟨5, [0], fun _ => true⟩
+    let cfg : Cfg := ⟨5, [0], fun _ => true, Pithos.Gen.partsSql⟩
     let s := run cfg St.init [.tx [.dedupe 0 7 0, .save 0 0 (some 7)], .orphan 0 9]
     ((gcRun cfg s).stores 0 9).isSome = true ∧
     ((gcRun cfg (step cfg s (.tick 6))).stores 0 9).isNone = true ∧
@@ -101,7 +105,7 @@ theorem grace_window_respected :
 deleting inside the transaction, one after it), a dedup-shared part and a deleted owner meets the
 hypotheses' shape, and the pass leaves exactly the referenced part. -/
 example :
-    let cfg : Cfg := ⟨1, [0, 1], fun st => st == 1⟩
+    let cfg : Cfg := ⟨1, [0, 1], fun st => st == 1, Pithos.Gen.partsSql⟩
     let s := run cfg St.init
       [.tx [.dedupe 0 7 0, .save 0 0 (some 7)], .tx [.dedupe 0 7 1, .save 1 0 (some 7)],
        .tx [.rawput 1 2, .save 2 0 none], .orphan 0 8, .orphan 1 9, .tx [.rm 2 none], .tick 3]
